@@ -3,6 +3,7 @@ package rules
 import (
 	"fmt"
 	"go/token"
+	"strings"
 
 	"golang.org/x/tools/go/ssa"
 
@@ -53,6 +54,8 @@ func runC14(c *core.Ctx) {
 	c20R5as(c, "C14.R8")
 	c14R9(c, "C14.R9")
 	jsonTargetRule(c, "C14.R10", "service/keyban")
+	c14R11(c, "C14.R11")
+	keyTextRule(c, "C14.R12")
 }
 
 // c14R7: the ban lookup reads the replicated state under the ban's own key and type.
@@ -655,5 +658,69 @@ func c14R9(c *core.Ctx, rule string) {
 	c.Count("functions_analysed", funcs)
 	if n == 0 {
 		c.OK(rule, "no deletion from the durable set", token.NoPos, fmt.Sprintf("%d functions of internal/event and internal/event/crdt: entries leave the store only through the tombstone expiry of C14.R6", funcs))
+	}
+}
+
+// c14R11: the read cache is keyed by the item itself. Every key handed to the freecache of a
+// Durable set (Get/Set/Del/Peek/GetOrSet…) is the item string's own bytes (binary.ToBytes or a
+// []byte conversion of the item/key parameter) — a hashed or truncated cache key lets one item
+// answer for another: the cached "removed" of an unbanned key then unbans a banned one.
+func c14R11(c *core.Ctx, rule string) {
+	c.Rule(rule, "Durable read cache: every freecache call is keyed by the bytes of the item string itself (binary.ToBytes(item) / []byte(item)), never by a hash or a part of it", 3)
+	n := 0
+	for _, f := range c.P.ScopeFuncs() {
+		if pkgPathOf(f) != M+"event/crdt" {
+			continue
+		}
+		eng.Instrs(f, func(in ssa.Instruction) {
+			ci, ok := in.(ssa.CallInstruction)
+			if !ok {
+				return
+			}
+			id := eng.FuncID(eng.CalleeObj(ci.Common()))
+			if !strings.HasPrefix(id, "github.com/coocood/freecache.Cache.") {
+				return
+			}
+			m := id[strings.LastIndex(id, ".")+1:]
+			switch m {
+			case "Get", "Set", "Del", "Peek", "GetOrSet", "SetAndGet", "Touch", "TTL", "GetWithExpiration", "GetWithBuf":
+			default:
+				return
+			}
+			n++
+			k := eng.CallArgs(ci.Common())[1]
+			ok2, why := false, eng.Describe(k)
+			v := k
+			if ph, isPhi := v.(*ssa.Phi); isPhi && len(ph.Edges) > 0 {
+				v = ph.Edges[0]
+			}
+			switch x := v.(type) {
+			case *ssa.Call:
+				if eng.FuncID(eng.CalleeObj(&x.Call)) == "github.com/kelindar/binary.ToBytes" {
+					a := eng.CallArgs(&x.Call)[0]
+					if _, isParam := eng.StripConv(a).(*ssa.Parameter); isParam {
+						ok2 = true
+					} else if u, isU := a.(*ssa.UnOp); isU {
+						if fv, isFV := u.X.(*ssa.FreeVar); isFV || fv != nil {
+							ok2 = true
+						}
+						if _, isAl := u.X.(*ssa.Alloc); isAl {
+							ok2 = true
+						}
+					} else if _, isFV := a.(*ssa.FreeVar); isFV {
+						ok2 = true
+					}
+				}
+			case *ssa.Convert:
+				if _, isParam := x.X.(*ssa.Parameter); isParam {
+					ok2 = true
+				}
+			}
+			c.Check(ok2, rule, fmt.Sprintf("%s:cache.%s keyed by the item", fnName(f), m), in.Pos(), "the cache key is the item's own bytes", "the read cache of the durable set is addressed by something other than the item string itself ("+why+"): two items sharing that key answer for each other for 60 s — the cached tombstone of an unbanned key makes a banned key valid again, or the other way round")
+		})
+	}
+	c.Count("cache_call_sites", n)
+	if n == 0 {
+		c.OK(rule, "no read cache", token.NoPos, "the durable set does not use a read cache any more")
 	}
 }
